@@ -280,6 +280,7 @@ func (x *fnExec) execInstr(st *State, in ssa.Instruction) bool {
 		ch := x.val(st, i.Chan)
 		val := x.val(st, i.X)
 		for _, ac := range x.c.AtSend {
+			x.clauseHit[ac] = true
 			c := x.ctx(st)
 			c.vars["$ch"] = ch
 			g := x.evalClause(st, c, ac)
